@@ -135,6 +135,7 @@ def oent_term(codes, ent, ns):
 
 
 def ds_code(case, name):
+    name = (case.get("proxies") or {}).get(name, name)     # a proxy dataset answers like the dataset it points at
     return case["datasets"].index(name) + 1 if name in case["datasets"] else 99
 
 
@@ -153,6 +154,9 @@ def write_ticks(case):
             ticks[i] = t
         elif op["op"] == "race":
             t += 2
+            ticks[i] = t
+        elif op["op"] == "hbatch" and op.get("reject"):
+            t += len(op["ents"]) // 10
             ticks[i] = t
         elif op["op"] == "hbatch":
             t += (len(op["ents"]) + 9) // 10     # the HTTP handler stores batches of 10
@@ -181,7 +185,10 @@ def case_term(codes, case, obs):
         case = json.loads(json.dumps(case))
         obs = json.loads(json.dumps(obs))
 
+        prox = case.get("proxies") or {}
+
         def rk(ds, t):
+            ds = prox.get(ds, ds)
             return bisect.bisect_left(rmaps.get(ds, []), t) if isinstance(t, int) and t > 0 and ds in rmaps else t
         rawtok = {}
         for i, op in enumerate(case["ops"]):
@@ -299,7 +306,14 @@ def case_term(codes, case, obs):
         elif k == "hbatch":
             # POST through the HTTP handler: StoreEntities is called once per 10 entities (and once for the rest)
             lens = (list(oo.get("lens") or []) + [0] * len(op["ents"]))[:len(op["ents"])]
-            for c0 in range(0, len(op["ents"]), 10):
+            upto = len(op["ents"])
+            if op.get("reject"):
+                # an id-less entity ends the request: the batches of 10 before it are stored, the last partial batch is refused
+                upto = (len(op["ents"]) // 10) * 10
+                if not oo.get("err"):
+                    terms.append("SChanges %d 0 0 false [] (-7)" % ds_code(case, op["ds"]))
+                    terms.append("SEntities %d [] [[]]" % ds_code(case, op["ds"]))
+            for c0 in range(0, upto, 10):
                 chunk = vlib.coq_list([ent_term(codes, e, l) for e, l in zip(op["ents"][c0:c0 + 10], lens[c0:c0 + 10])])
                 terms.append("SWrite (WBatch %d %s) (-1)" % (ds_code(case, op["ds"]), chunk))
         elif k == "hchanges":
@@ -307,6 +321,11 @@ def case_term(codes, case, obs):
             since = tokens.get(key, 0) if op.get("reader") else op.get("since", 0)
             ents = vlib.coq_list([oent_term(codes, e, ns) for e in (oo.get("ents") or [])])
             nxt = oo.get("next", 0) if not (oo.get("err") or oo.get("panic")) else -7
+            if op.get("since_str"):
+                # a position given as a decimal string (up to 2^64-1); the answer's position comes back as a string too
+                since = int(op["since_str"])
+                if nxt != -7:
+                    nxt = int(oo["next_str"]) if (oo.get("next_str") or "").isdigit() else -7
             if op.get("reader"):
                 tokens[key] = oo.get("next", 0)
             if op.get("reverse"):
@@ -345,7 +364,7 @@ def case_term(codes, case, obs):
             if op.get("reader"):
                 tokens[key] = oo.get("next", 0)
             terms.append("SRev %d %s %d %s %s" % (ds_code(case, op["ds"]), vlib.zlit(since), op.get("limit", 0), ents, vlib.zlit(nxt)))
-        elif k in ("seqs", "burn", "restart"):
+        elif k in ("seqs", "burn", "restart", "mkproxy"):
             pass
         elif k == "par":
             # batches into different datasets stored at the same moment: independent, so any order is THE outcome
